@@ -1,0 +1,19 @@
+//! Verification hooks (feature `verif-hooks`, off by default).
+
+use std::sync::{Arc, RwLock};
+
+type Clock = Arc<dyn Fn() -> Option<u64> + Send + Sync>;
+
+static CLOCK: RwLock<Option<Clock>> = RwLock::new(None);
+
+/// Installs (or with `None` removes) a replacement for the circuit breaker's wall clock
+/// (milliseconds). The function runs on the thread that reads the clock, so it can also serve
+/// as a scheduling point.
+pub fn set_clock(clock: Option<Clock>) {
+    *CLOCK.write().unwrap_or_else(|e| e.into_inner()) = clock;
+}
+
+pub fn clock_override() -> Option<u64> {
+    let clock = CLOCK.read().unwrap_or_else(|e| e.into_inner()).clone();
+    clock.and_then(|clock| clock())
+}
